@@ -703,6 +703,8 @@ def kind_from_dtype(dt):
         return dt
     if isinstance(dt, DType):
         return dt._k
+    if hasattr(dt, "_np_type"):
+        dt = dt._np_type
     nm = getattr(dt, "__name__", "")
     if nm in ("s_bool", "s_int", "s_float"):       # the builtin shims of amode stand for the builtins
         dt = {"s_bool": bool, "s_int": int, "s_float": float}[nm]
